@@ -220,6 +220,9 @@ fn validate_command_part(command: &str) -> Result<(), CommandErrorKind> {
         .find(|(_, c)| !is_valid_command_char(*c))
     {
         Err(CommandErrorKind::InvalidCharacter(i, c))
+    } else if command.starts_with('_') {
+        // MPD requires command names to start with a letter
+        Err(CommandErrorKind::InvalidCharacter(0, '_'))
     } else if is_command_list_command(command) {
         Err(CommandErrorKind::CommandList)
     } else {
